@@ -130,6 +130,8 @@ func init() {
 		"(*hash/fnv.sum64).Write":  func(fr *frame, a []value) value { return extFnvWrite(fr, a, "fnv64") },
 		"(*hash/fnv.sum64a).Write": func(fr *frame, a []value) value { return extFnvWrite(fr, a, "fnv64a") },
 		"strings.Clone":         func(fr *frame, a []value) value { return a[0] },
+		"strconv.cloneString":   func(fr *frame, a []value) value { return a[0] },
+		"internal/stringslite.Clone": func(fr *frame, a []value) value { return a[0] },
 		"unique.Make":           extUniqueMake,
 		"(unique.Handle).Value": extUniqueValue,
 
